@@ -14,7 +14,7 @@
 From Coq Require Import List NArith Bool.
 Import ListNotations.
 Require Import Aiuti.Buffer Aiuti.BufferInv Aiuti.BufferJoin Aiuti.BufferTime Aiuti.BufferQuiet
-               Aiuti.Case_Buffer.
+               Aiuti.Case_Buffer Aiuti.Case_C08.
 
 (* For EVERY event list, in the flattened trace:
    (a) every call of the wrapped function gets a non-empty set;
@@ -32,13 +32,34 @@ Theorem serial_nonempty :
 Proof. exact serial_nonempty_readable. Qed.
 Print Assumptions serial_nonempty.
 
-(* The same fact in the form used by the trace monitor: the automaton [serial]
-   (no FnStart while a call is open, no empty set, consecutive numbers, FnEnd
-   only for the open call) accepts the trace of every event list. *)
-Theorem serial_monitor_accepts_model :
-  forall (T : N) (evs : list event), serial false 0 (concat (trace T evs)) <> None.
-Proof. exact serial_nonempty_lemma. Qed.
-Print Assumptions serial_monitor_accepts_model.
+(* The trace monitor used on implementation traces is Case_C08.ok = ok_serial && ok_walk.
+   Its serial part (the automaton Case_Buffer.serial on the flattened trace) is
+   COMPLETE: it accepts the model's own trace of every event list — so on any case
+   where the implementation's trace equals the model's it cannot raise a false
+   alarm ... *)
+Theorem serial_monitor_complete :
+  forall (T : N) (evs : list event), ok_serial (Case T evs (trace T evs)) = true.
+Proof. exact ok_serial_complete. Qed.
+Print Assumptions serial_monitor_complete.
+
+(* ... and SOUND, independently of the model: any observed trace it accepts (in
+   particular any the whole monitor accepts) has non-empty sets, never a second
+   FnStart before the FnEnd of the previous call, and consecutive call numbers. *)
+Theorem serial_monitor_sound :
+  forall (T : N) (evs : list event) (observed : list (list obs)),
+    ok_serial (Case T evs observed) = true ->
+    let tr := concat observed in
+    (forall pre c set t rest, tr = pre ++ FnStart c set t :: rest -> set <> []) /\
+    (forall pre c set t mid c' set' t' rest,
+        tr = pre ++ FnStart c set t :: mid ++ FnStart c' set' t' :: rest ->
+        exists ok set_end, In (FnEnd c ok set_end) mid) /\
+    (forall pre c set t rest, tr = pre ++ FnStart c set t :: rest -> c = n_starts pre).
+Proof. exact ok_serial_sound. Qed.
+Print Assumptions serial_monitor_sound.
+
+Theorem monitor_implies_serial : forall c, Case_C08.ok c = true -> ok_serial c = true.
+Proof. exact ok_implies_serial. Qed.
+Print Assumptions monitor_implies_serial.
 
 (* Debounce.  Take ANY reachable state in which the daemon is idle (parked on the
    first q.get() of a round) and nobody is inside wait().  Submit a burst of
